@@ -178,7 +178,28 @@ def m1_model_side(ctx):
                   (len([o for o in rel if o.status == 'holds']), len([o for o in rel if o.status == 'undecided'])), 'sparse_clusters provenance')
 
 
+def m2_amplitudes(ctx):
+    """spikes.amps / templates.amps / clusters.amps and the rescaled waveforms are what TemplateModel.get_amplitudes_true returns (times the unit factor): the obligations on
+    that method (C09.U1: unwhitened template amplitude = largest peak-to-peak over channels, own id's amplitude per spike, mean per id, unit factor) are prerequisites
+    of "exported values equal the physical quantities they name"."""
+    from vlib import report
+    from obligations import C09
+    sub = report.Ctx('C09', ctx.repo, ctx.tier, ctx.seed)
+    C09.run(sub)
+    rel = [o for o in sub.obs if o.rule == 'C09.U1']
+    bad = [o for o in rel if o.status == 'violated']
+    for o in bad[:4]:
+        ctx.obs.append(report.Ob('C14.U2', o.where, 'violated', 'the exported amplitudes are those of get_amplitudes_true, whose computation is wrong (%s): %s' % (o.rule, o.detail), o.construct, o.line))
+    if not bad:
+        if any(o.status == 'holds' for o in rel):
+            ctx.holds('C14.U2', M + ':TemplateModel.get_amplitudes_true', 'model-side amplitudes: %d obligations of C09.U1 hold (%d undecided)' %
+                      (len([o for o in rel if o.status == 'holds']), len([o for o in rel if o.status == 'undecided'])), 'get_amplitudes_true')
+        else:
+            ctx.undecided('C14.U2', M + ':TemplateModel.get_amplitudes_true', 'the model-side amplitude computation (C09.U1) was not decided')
+
+
 def run(ctx):
+    ctx.part('C14.U2', m2_amplitudes)
     repo = ctx.repo
     cls = repo.cls(ALF, 'EphysAlfCreator')
     # ---------------------------------------------------------------- U1 / U2 via the shape runs
